@@ -545,7 +545,7 @@ package index
 //@   loop 1 invariant @locals len(tmpBuckets) == 4096 && busySet != nil && maxFileSize == index.maxFileSize
 //@   loop 1 invariant @end end == (1 << index.sizeBits)
 //@   loop 1 invariant forall j int :: 0 <= j && j < gi0 && j < len(index.buckets) && index.buckets[j] >= 4 ==> BUSYFILE(index.buckets[j]) in busySet
-//@   loop 1 invariant forall k int :: 0 <= k && k < i - gi0 ==> tmpBuckets[k] == index.buckets[gi0 + k]
+//@   loop 1 invariant @window-copy forall j int :: gi0 <= j && j < i ==> tmpBuckets[j - gi0] == index.buckets[j]
 //@   loop 1 invariant forall k int :: 0 <= k && k < $idx && tmpBuckets[k] >= 4 ==> BUSYFILE(tmpBuckets[k]) in busySet
 //@   assert at before call os.Truncate#0: @C04-unreferenced forall j int :: 0 <= j && j < len(index.buckets) && index.buckets[j] >= 4 ==> BUSYFILE(index.buckets[j]) != fileNum
 //@   assert at before call os.Remove#0: @C04-unreferenced forall j int :: 0 <= j && j < len(index.buckets) && index.buckets[j] >= 4 ==> BUSYFILE(index.buckets[j]) != fileNum
